@@ -357,8 +357,13 @@ if __name__ == '__main__':
         print('status', r['status'], 'verified', r['verified'], 'errors', r['errors'], 'smt_ms', r['smt_ms'], 'wall %.1fs' % r['wall_s'])
         for e in r['tool_errors']:
             print('TOOL:', e)
+        if os.environ.get('VERIF_SLOW'):
+            for n, d in sorted(r.get('fns', {}).items(), key=lambda kv: -(kv[1].get('ms') or 0))[:6]:
+                print('  slow:', n, d.get('ms'), 'ms rlimit', d.get('rlimit'))
         for k, dg in (r.get('asm', {}).get('degraded') or {}).items():
             print('DEGRADED (not verified):', k, '|', dg['reason'][:160], '| props', dg['props'])
+        for dc in r.get('degraded_for_compile_errors', []):
+            print('  compile errors that degraded', dc['fn'], ':', ' || '.join(x[:400] for x in dc['errors']))
         fi = r.get('asm', {}).get('fns', {})
         for f in r['failures']:
             print('FAIL', f['kind'], obligation_id(f), sorted(failure_props(f, fi)))
